@@ -95,6 +95,8 @@ func c19Drivers() []*icCfg {
 		{Name: "R9b-hybrid-worker-vs-delete", O: small, Hy: &hyIcCfg{Workers: 1, Prob: 1}, Pre: []icOp{T(1, long), T(2, long), W}, Scripts: [][]icOp{{HD(1)}, {H(2), T(1, long)}}},
 		{Name: "R9c-hybrid-close", O: small, Hy: &hyIcCfg{Workers: 1, Prob: 1}, Pre: []icOp{T(1, long), T(2, long), W}, Scripts: [][]icOp{{{Kind: "close"}}, {H(1)}}},
 		{Name: "R9d-hybrid-loading", O: small, Hy: &hyIcCfg{Workers: 1, Prob: 1}, Loading: true, LoadCost: 1, LoadTTL: long, Pre: []icOp{T(1, long), T(2, long), W, Z}, Scripts: [][]icOp{{L(1)}, {T(1, long)}}},
+		// the demotion fails (scripted Secondary.Set error): the worker reports the entry as lost and removes it, racing a Set of that key
+		{Name: "R9g-hybrid-failed-demotion-vs-set", O: small, Hy: &hyIcCfg{Workers: 1, Prob: 1, Faults: "S1"}, Pre: []icOp{T(1, long), T(2, long), W}, Scripts: [][]icOp{{T(1, long)}, {H(2)}}},
 		{Name: "R9e-hybrid-close-3", O: small, Hy: &hyIcCfg{Workers: 1, Prob: 1}, Pre: []icOp{T(1, long), T(2, long), W}, Scripts: [][]icOp{{{Kind: "close"}}, {H(1), T(3, long)}}},
 		{Name: "R9f-hybrid-loading-3", O: small, Hy: &hyIcCfg{Workers: 1, Prob: 1}, Loading: true, LoadCost: 1, LoadTTL: long, Pre: []icOp{T(1, long), T(2, long), W, Z}, Scripts: [][]icOp{{L(1)}, {T(1, long)}, {L(3)}}},
 		// SaveCache against expiry and eviction; a loading Get against Close and the tick
